@@ -81,8 +81,37 @@ def main(tier):
                 ck.ob('pivot-guarded', 'amgcl::solver::skyline_lu::factorize|pivot#%d' % k, f.where(asg), ok,
                       '' if ok else 'the pivot `%s` is inverted at %s without a dominating precondition(!math::is_zero(%s))' % (e, f.where(asg), e))
     rule_profile(ck, units)
+    rule_lu_order(ck, units)
     ck.assumptions += ['exactness of LU / inverse / QR / static-matrix algebra and Cuthill-McKee being a permutation are not decided (numerical / combinatorial)']
     return ck.finish()
+
+
+def rule_lu_order(ck, units):
+    ck.rule('lu-factor-order', 'skyline_lu::factorize: in every product of an entry of the factor L with an entry of the factor U the L entry is the left operand '
+                               '(A = L U: rows of L times columns of U; the order matters for block values)', 1)
+    done = set()
+    for u in units.values():
+        for f in u.funcs:
+            if f.q != 'amgcl::solver::skyline_lu::factorize' or f.cfg is None or f.line in done:
+                continue
+            done.add(f.line)
+
+            def member_of(e):
+                e = unwrap(e)
+                if e is not None and e['k'] == 'idx':
+                    b = unwrap(e['b'])
+                    if b is not None and b['k'] == 'mem' and (b.get('b') is None or unwrap(b['b'])['k'] == 'this'):
+                        return b['n']
+                return None
+            sites = []
+            for n in f.nodes.values():
+                if n['k'] == 'bin' and n['op'] == '*':
+                    a, b = member_of(n['x']), member_of(n['y'])
+                    if {a, b} == {'L', 'U'}:
+                        sites.append((n, a == 'L'))
+            bad = [n for n, ok in sites if not ok]
+            ck.ob('lu-factor-order', 'amgcl::solver::skyline_lu::factorize', f.where(bad[0]) if bad else f.where(), bool(sites) and not bad,
+                  ('no L * U product found' if not sites else 'at %s the update multiplies `%s`: an entry of U times an entry of L (%d other sites multiply L * U)' % (f.where(bad[0]), show(bad[0]), len(sites) - len(bad))) if (bad or not sites) else '')
 
 
 def order_cases(f, L, block):
